@@ -95,7 +95,7 @@ func (tt *tokenTable) cv(name string) cval {
 // reachable return agrees on one.
 func (s *sccp) evalConstInt(f *types.Func, args ...cval) (int64, bool) {
 	c, ok := s.evalConst(f, args...)
-	if !ok || c.nilc || c.v.Kind() != constant.Int {
+	if !ok || !c.isPlain() || c.v.Kind() != constant.Int {
 		return 0, false
 	}
 	n, ok := constant.Int64Val(c.v)
